@@ -311,8 +311,15 @@ func execC10(c Case) (res evid.Result) {
 		one := uint64(1)
 		hSmall := hdrOf(c, m, m.Cong)
 		hBig := hSmall
-		if c.LocalCong && m.Cong == nil {
-			hBig = hdrOf(c, m, &one)
+		if c.LocalCong {
+			// the sender may replace / add the mark with its own (value 1)
+			alt := hdrOf(c, m, &one)
+			if alt.Size(len(wire)) > hBig.Size(len(wire)) {
+				hBig = alt
+			}
+			if alt.Size(len(wire)) < hSmall.Size(len(wire)) {
+				hSmall = alt
+			}
 		}
 		fitsSure := hBig.Size(len(wire)) <= c.MTU    // fits whatever the sender adds
 		fitsMaybe := hSmall.Size(len(wire)) <= c.MTU // fits if the sender adds nothing
@@ -481,6 +488,16 @@ func execC10(c Case) (res evid.Result) {
 		}
 		multiOK := c.RxLocal && m.Kind == "D" && len(m.OutTok) != 6 // producer Data goes to every thread with a matching prefix
 		if len(got) == 0 {
+			for k, d := range sink {
+				if !used[k] && len(d.raw) == len(msgs[i].wire) {
+					off := 0
+					for off < len(d.raw) && d.raw[off] == msgs[i].wire[off] {
+						off++
+					}
+					return fail("msg %d (%s, %d bytes, %d frame(s), MTU %d, order %s): delivered with different bytes (first difference at offset %d)",
+						i, m.Kind, m.Size, perMsg[i], c.MTU, c.Mode, off)
+				}
+			}
 			return fail("msg %d (%s, %d bytes, %d frame(s), MTU %d, order %s): not delivered by the receiving link service (%d deliveries in total)",
 				i, m.Kind, m.Size, perMsg[i], c.MTU, c.Mode, len(sink))
 		}
@@ -500,6 +517,9 @@ func execC10(c Case) (res evid.Result) {
 			}
 			if !c.LocalCong && !eqMark(d.cong, m.Cong) {
 				return fail("msg %d (%d frame(s)): delivered with congestion mark %s, sent with %s", i, perMsg[i], markStr(d.cong), markStr(m.Cong))
+			}
+			if c.LocalCong && !eqMark(d.cong, m.Cong) {
+				cls["local-congestion-marking:mark-added"] = true
 			}
 			if c.LocalCong && m.Cong != nil && d.cong == nil {
 				return fail("msg %d: congestion mark %s lost", i, markStr(m.Cong))
@@ -610,6 +630,11 @@ func genCase(t *rapid.T) Case {
 		}
 		if n > 1 && size < 16 {
 			size = 16 // below that the label is not part of the packet: keep the messages distinct
+		}
+		if c.RxLocal && size < 6 {
+			// producer Data on a local face is dispatched to the threads of its non-empty
+			// prefixes; the 4-byte Data named "/" has none (dispatch policy, not C10)
+			size = 6
 		}
 		m.Size = fixSize(m.Kind, m.Label, size)
 		c.Msgs = append(c.Msgs, m)
